@@ -38,7 +38,7 @@ META = {
     "C10": dict(engine="E1-sched", tech="stateless model checking of the real RLScheduler/env/agent on real threads serialised by a baton: ALL interleavings at queue/thread/shared-attribute points modulo commutation of independent steps (sleep-set partial-order reduction, cross-checked against the unreduced search), unreduced preemption-bounded search, and line-granularity exploration with a preemption bound; sequential reference monitor on every execution; second driver = real Calibrator.calibrate; waits with a timeout explored as a bounded timer-lands-first deviation; error and keyboard-interrupt faults inside multi-session shapes",
                 text="Every schedule of the calibration thread and the agent thread within the stated bounds is executed on the implementation and checked by a reference monitor (learn exactly once per executed batch with the right reward and action, nothing left in queues, no deadlock, same sampler sequence in every schedule). Tier A has no preemption bound: sleep sets cut only executions equivalent to an explored one.",
                 note="The reduction assumes that between two scheduling points a thread touches only thread-local state or state behind a point; Tier B (every source line of black_it/schedulers a scheduling point, preemption bound 1/2) does not assume it. Within one source line bytecode interleavings are not explored; shapes up to 3 sessions x 3 batches."),
-    "C11": dict(engine="E2-opseq+E1", tech="fault enumeration: a distinguishable exception injected at every invocation index of model, loss and each sampler for both scheduler kinds, with and without saving folder; RL fault positions under the controlled-thread explorer (all interleavings modulo independence); convergence break under RL; scripted losses x convergence precision x a loss failing at every invocation of the first two batches",
+    "C11": dict(engine="E2-opseq+E1", tech="fault enumeration: a distinguishable exception injected at every invocation index of model, loss and each sampler for both scheduler kinds, with and without saving folder; RL fault positions under the controlled-thread explorer (all interleavings modulo independence), each followed by two further batches on the same object; convergence break under RL; scripted losses x convergence precision x a loss failing at every invocation of the first two batches",
                 text="For every fault position the real calibrate() must raise that exception, leave the history equal to the fault-free prefix, leave no thread behind, and accept a further calibrate().",
                 note="n_jobs=1 (fault position must be owned)."),
     "C12": dict(engine="E4-enum", tech="exhaustive enumeration of all draw scripts over a 4-row universe for every (history, batch size, pass budget) cell, against a reference model of the dedup loop; one sampler object per cell (state carried between calls shows), a universe with zeros of opposite sign",
@@ -53,7 +53,7 @@ META = {
     "C15": dict(engine="E4-enum", tech="exhaustive enumeration of list/array shaped specifications over a value lattice for up to 3 parameters plus a scale lattice, against a reference of the documented validation order and grid rule; the caller's own arrays reused for four constructions",
                 text="Exception class, payload and precedence for every malformed spec; grid length, elements, end-point and space_size for every well-formed one.",
                 note="range/precision capped at 1e5; negative precision and zero-parameter specs recorded, not judged."),
-    "C16": dict(engine="E4-enum", tech="bounded-exhaustive: byte snapshots of history arrays around every sampler call; every prediction vector in {0,1,2}^pool for a stub surrogate; best-batch parent/displacement oracle over option and history lattice; candidate pools of 1000-20000 (100000) with the best candidate at head/tail/chunk boundaries, histories of 999-2500 (20000) rows",
+    "C16": dict(engine="E4-enum", tech="bounded-exhaustive: byte snapshots of history arrays around every sampler call over a loss lattice (ties, huge, +inf, -inf, beyond float32 on both sides and on each side alone); every prediction vector in {0,1,2}^pool for a stub surrogate; best-batch parent/displacement oracle over option and history lattice; candidate pools of 1000-20000 (100000) with the best candidate at head/tail/chunk boundaries, histories of 999-2500 (20000) rows",
                 text="No sampler may modify the lent arrays (incl. float32-overflowing losses); a surrogate must fit on exactly the history and return the batch_size best-predicted pool rows; best-batch proposals must descend from one of the batch_size best rows by 1..range-1 steps.",
                 note="Histories and spaces from the C03 lattice."),
     "C17": dict(engine="E4-enum", tech="bounded-exhaustive input enumeration: all subsets of a base grid x scales x offsets, values placed relative to the grid (elements, mid/quarter points, nextafter neighbours, out of range); nearest-element oracle",
